@@ -193,6 +193,9 @@ if __name__ == "__main__":
     elif cmd == "intake2":
         for p in sys.argv[2:]:
             intake(p, "/tmp/w2_%s/seed_out" % p, "CD")
+    elif cmd == "intake3":
+        for p in sys.argv[2:]:
+            intake(p, "/tmp/w3_%s/seed_out" % p, "CD")
     elif cmd == "confirm":
         for s in sys.argv[2:]:
             confirm(s)
